@@ -53,6 +53,8 @@ for _p in INSTR_PHASES:
 ENDINGS['syn_act'] = ('SYNTAX_ERROR', 'act')
 ENDINGS['val_file_setup'] = ('VALIDATION_ERROR', 'setup')
 ENDINGS['val_home'] = ('VALIDATION_ERROR', 'conf')
+ENDINGS['val_act_home'] = ('VALIDATION_ERROR', 'conf')
+CONF_VALIDATION = {'val_home': 'home = nodir', 'val_act_home': 'act-home = nodir'}
 ENDINGS['hard_setup'] = ('HARD_ERROR', 'setup')
 ENDINGS['hard_act'] = ('HARD_ERROR', 'act')
 ENDINGS['hard_before-assert'] = ('HARD_ERROR', 'before-assert')
@@ -106,8 +108,11 @@ def build(case):
         ph['act'].append('% {PY} second-line')
     elif ending == 'val_file_setup':
         ph['setup'].append('copy missing-file')
-    elif ending == 'val_home':
-        ph['conf'].append('home = nodir')
+    elif ending in CONF_VALIDATION:
+        if case.get('conf_defect_first'):
+            ph['conf'].insert(0, CONF_VALIDATION[ending])
+        else:
+            ph['conf'].append(CONF_VALIDATION[ending])
     elif ending in ('hard_setup', 'hard_before-assert', 'hard_cleanup'):
         ph[phase].append('$ exit 3')
     elif ending in ('hard_unrunnable_setup', 'hard_unrunnable_cleanup'):
@@ -171,7 +176,7 @@ def expected(case):
         return {'ident': {'SYNTAX_ERROR', 'SKIPPED'}, 'sandbox': False, 'act_ran': False}
     if kind in ('SYNTAX_ERROR', 'FILE_ACCESS_ERROR', 'PRE_PROCESS_ERROR'):
         return {'ident': {kind}, 'sandbox': False, 'act_ran': False}
-    if ending == 'val_home':
+    if ending in CONF_VALIDATION:
         ids = {'VALIDATION_ERROR'} | ({'SKIPPED'} if eff_status == 'SKIP' else set())
         return {'ident': ids, 'sandbox': False, 'act_ran': False}
     if eff_status == 'SKIP':
@@ -266,6 +271,21 @@ def check(case) -> Verdict:
     labels.append('ident:%s' % ident)
     if ident not in exp['ident']:
         return bad('wrong-verdict', reported=ident)
+    if case['ending'] in CONF_VALIDATION and case['status'] == 'SKIP':
+        # the manual does not say which of SKIPPED / VALIDATION_ERROR wins, but the verdict is a function of the
+        # configured status and of what is wrong with the case: one reading must hold wherever the two [conf]
+        # lines stand relative to each other
+        other = dict(case, conf_defect_first=not case.get('conf_defect_first'))
+        text2, argv2 = build(other)
+        with driver.Workspace() as ws2:
+            ws2.write('t.case', text2)
+            r2 = driver.run_inproc(ws2, [ws2.subst(a) for a in argv2])
+        ids2 = _ident_lines(r2.out) + _ident_lines(r2.err)
+        ident2 = ids2[0] if ids2 else None
+        labels.append('conf-order-pair')
+        if ident2 != ident:
+            return bad('skip-vs-conf-validation-depends-on-line-order', reported=ident, other_order=ident2,
+                       other_text=text2)
     if ident is not None:
         if ident not in TABLE:
             return bad('unknown-identifier', reported=ident)
